@@ -13,6 +13,37 @@ from .c03 import rule_filter
 MARKUP_ATTRS = ("markup_text", "plain_to_markup", "markup_to_plain")
 
 
+def rule_document_text(ctx: Ctx, rule: str = "R-C19-1"):
+    """the document's plain text is clean_text(<plain or markup input>, <the caller's steps, in the caller's order>)"""
+    repo = ctx.repo
+    mm = repo.mod("models")
+    # plain_text of the document: derived by clean_text in __post_init__ only
+    pi = repo.need_func("models.Document.__post_init__")
+    pts = [s for s in stmts_local(pi.body) if isinstance(s, ast.Assign) and norm(s.targets[0]) == "self.plain_text"]
+    # the steps may be held in a local that is a list copy of self.clean_steps (`steps = list(self.clean_steps) if .. is not None else []`)
+    step_names = {"self.clean_steps"}
+    cand = {s.targets[0].id for s in stmts_local(pi.body) if isinstance(s, ast.Assign) and len(s.targets) == 1 and isinstance(s.targets[0], ast.Name)}
+
+    def _copy_of_steps(a):
+        return (isinstance(a, ast.Call) and dotted(a.func) in ("list", "tuple") and len(a.args) == 1 and norm(a.args[0]) == "self.clean_steps") \
+            or (isinstance(a, (ast.List, ast.Tuple)) and not a.elts) or norm(a) == "self.clean_steps"
+    for nm in sorted(cand):
+        binds = [x for x in stmts_local(pi.body) if isinstance(x, (ast.Assign, ast.AugAssign, ast.AnnAssign, ast.For)) and nm in assigned_names(x)]
+        alts = []
+        for x in binds:
+            if not (isinstance(x, ast.Assign) and len(x.targets) == 1 and isinstance(x.targets[0], ast.Name)):
+                alts = None
+                break
+            alts += [x.value.body, x.value.orelse] if isinstance(x.value, ast.IfExp) else [x.value]
+        if alts and all(_copy_of_steps(a) for a in alts) and any("self.clean_steps" in norm(a) for a in alts):
+            step_names.add(nm)
+    okp = bool(pts) and all(isinstance(s.value, ast.Call) and dotted(s.value.func) == "clean_text" and norm(s.value.args[1]) in step_names
+                            and norm(s.value.args[0]) in ("self.plain_text", "self.markup_text") for s in pts)
+    ctx.ob(rule, "models.Document.__post_init__/plain-text", okp,
+           "the cleaned text is clean_text(<plain or markup input>, self.clean_steps): the same function the plain-text call computes", node=pi, mod=mm)
+    return pi, step_names
+
+
 def rule_noninterference(ctx: Ctx, typed: Typed):
     repo = ctx.repo
     allowed = {"models.Document.__post_init__", "find.find_reference_citations_from_markup", "find.extract_reference_citations", "find.get_citations"}
@@ -46,15 +77,12 @@ def rule_noninterference(ctx: Ctx, typed: Typed):
         for x in walk_local(fn):
             if isinstance(x, ast.Attribute) and x.attr in ("words", "citation_tokens") and isinstance(x.ctx, ast.Store) and qual != "models.Document.tokenize":
                 ctx.ob("R-C19-1", f"{qual}/writes:{x.attr}", False, "token lists of the document are written outside Document.tokenize", node=x, mod=mod)
-    # plain_text of the document: derived by clean_text in __post_init__ only
-    pi = repo.need_func("models.Document.__post_init__")
-    pts = [s for s in stmts_local(pi.body) if isinstance(s, ast.Assign) and norm(s.targets[0]) == "self.plain_text"]
-    okp = bool(pts) and all(isinstance(s.value, ast.Call) and dotted(s.value.func) == "clean_text" and norm(s.value.args[1]) == "self.clean_steps"
-                            and norm(s.value.args[0]) in ("self.plain_text", "self.markup_text") for s in pts)
-    ctx.ob("R-C19-1", "models.Document.__post_init__/plain-text", okp,
-           "the cleaned text is clean_text(<plain or markup input>, self.clean_steps): the same function the plain-text call computes", node=pi, mod=mm)
+    pi, step_names = rule_document_text(ctx, "R-C19-1")
     # R-C19-6 markup requires the html step
-    guard = [n for n in walk_local(pi) if isinstance(n, ast.If) and "'html' not in" in norm(n.test) and any(isinstance(s, ast.Raise) for s in n.body)]
+    guard = [n for n in walk_local(pi) if isinstance(n, ast.If) and any(isinstance(s, ast.Raise) for s in n.body) and (
+        any(f"'html' not in {sn}" in norm(n.test) for sn in step_names)
+        or (isinstance(n.test, ast.UnaryOp) and isinstance(n.test.op, ast.Not) and isinstance(n.test.operand, ast.Call) and dotted(n.test.operand.func) == "any"
+            and "== 'html'" in norm(n.test) and any(f"in {sn}" in norm(n.test) for sn in step_names)))]
     ctx.ob("R-C19-6", "models.Document.__post_init__/html-step-required", bool(guard),
            "markup input without the html cleaning step is rejected (raises)", node=guard[0] if guard else pi, mod=mm, nontrivial=False)
 
@@ -245,6 +273,14 @@ def rule_name_guards(ctx: Ctx):
             atoms += true_atoms(rv, True)
         n_true += 1
         got = atoms
+        # the stop-list test may go through a module-level table derived from DISALLOWED_NAMES (a lower-cased frozenset of it)
+        um_ = repo.mod("utils")
+        for a_ in list(atoms):
+            pre_ = f"{P}.lower() not in "
+            if a_.startswith(pre_) and a_ != need[-1]:
+                tbl = um_.toplevel_assign(a_[len(pre_):])
+                if tbl is not None and any(isinstance(x, ast.Name) and x.id == "DISALLOWED_NAMES" for x in ast.walk(tbl)):
+                    atoms.append(need[-1])
         if not all(x in atoms for x in need):
             ok_conj = False
     ctx.ob("R-C19-4", "utils.is_valid_name/conjunction", ok_conj and n_true >= 1,
